@@ -186,6 +186,12 @@ func advTOC(d func(int) int, payloadLen int64, maxDepth int) ([]byte, []string) 
 			&estargz.TOCEntry{Name: "ov", Type: "chunk", Offset: 0, ChunkOffset: 30, ChunkSize: 90, ChunkDigest: dg},
 			&estargz.TOCEntry{Name: "ov", Type: "chunk", Offset: 0, ChunkOffset: 10, ChunkSize: 0, ChunkDigest: dg})
 		notes = append(notes, "overlapping-chunks")
+	case 5: // chunks that leave a hole in the file, aligned or not
+		dg := digest.FromBytes(bytes.Repeat([]byte{'a'}, 10)).String() // (what the first payload member starts with: the first chunk verifies)
+		co := []int64{20, 25, 11}[d(3)]
+		ents = append(ents, &estargz.TOCEntry{Name: "hole", Type: "reg", Size: 30, Offset: 0, ChunkSize: 10, ChunkDigest: dg, Digest: dg, Mode: 0644},
+			&estargz.TOCEntry{Name: "hole", Type: "chunk", Offset: 0, ChunkOffset: co, ChunkSize: []int64{10, 0, 5}[d(3)], ChunkDigest: dg})
+		notes = append(notes, fmt.Sprintf("chunk-hole@%d", co))
 	case 4: // a subtree hanging under a non-directory, 1-3 levels down (intermediate directories implied), linking back to it
 		typ := []string{"reg", "symlink", "char", "hardlink"}[d(4)]
 		top := &estargz.TOCEntry{Name: "nd", Type: typ, Mode: 0644}
